@@ -34,6 +34,7 @@ type e2eSpec struct {
 	SenderCrashAt  []int      `json:"sender_crash_at,omitempty"`      // boundary action numbers (global count)
 	RecvCrashAt    []int      `json:"recv_crash_at,omitempty"`        // k-th mutating fs operation of the receiver (global count)
 	Downtime       int        `json:"downtime_s"`                     // virtual seconds a crashed side stays down
+	OwnOraclesOnly bool       `json:"own_oracles_only,omitempty"`      // crash enumeration: judge only the property's own oracle and C03 progress
 	VanishAtCrash  []int      `json:"vanish_at_sender_crash,omitempty"` // these files disappear from the outgoing directory while the sender is down
 	PreDelivered   int        `json:"pre_delivered,omitempty"`        // first n files are delivered by an earlier run
 	Consume        bool       `json:"consume"`                        // delivered files are taken away by a consumer
@@ -1117,6 +1118,17 @@ func deliveredVersion(o *e2eOutcome, name, hash string) bool {
 	return false
 }
 
+// deliveredVersionBy: was (name, hash) delivered (or held validated and later delivered
+// without another transmission) no later than virtual time vt?
+func deliveredVersionBy(o *e2eOutcome, name, hash string, vt time.Duration) bool {
+	for _, d := range o.delivered {
+		if d.Rel == targetName(o.w, name) && d.MD5 == hash && d.At.Sub(o.w.start) <= vt {
+			return true
+		}
+	}
+	return false
+}
+
 func covered(rs []iv) int64 {
 	if len(rs) == 0 {
 		return 0
@@ -1293,6 +1305,7 @@ func oracleNoDuplicateData(o *e2eOutcome, v vfn) {
 	for g := 2; g <= maxGen; g++ {
 		held := map[string][]iv{}      // name|hash -> ranges listed in the first successful partials answer
 		confirmed := map[string]bool{} // names polled passed/waiting during start-up recovery
+		confirmedAt := map[string]time.Duration{}
 		failed := map[string]bool{}
 		gotListing := false
 		for _, r := range o.reqs {
@@ -1313,6 +1326,7 @@ func oracleNoDuplicateData(o *e2eOutcome, v vfn) {
 				for n, c := range r.Codes {
 					if c == sts.ConfirmPassed || c == sts.ConfirmWaiting {
 						confirmed[n] = true
+						confirmedAt[n] = r.End
 					}
 					if c == sts.ConfirmFailed || c == sts.ConfirmNone {
 						failed[n] = true
@@ -1324,7 +1338,9 @@ func oracleNoDuplicateData(o *e2eOutcome, v vfn) {
 					if failed[p.Name] || fileChangedAfter(o, p.Name, p.Hash) {
 						continue
 					}
-					if confirmed[p.Name] && deliveredVersion(o, p.Name, p.Hash) {
+					// (the poll goes by name: the answer can only have been about THIS version
+					// if the receiver held it validated when it answered)
+					if confirmed[p.Name] && deliveredVersionBy(o, p.Name, p.Hash, confirmedAt[p.Name]) {
 						v("C07", "confirmed-files-not-resent", "resent-confirmed-file", fmt.Sprintf("sender generation %d transmitted %s%s although the receiver had answered passed/waiting for it after the restart", g, p.Name, fmtIv(p.Beg, p.End)))
 					}
 					for _, h := range held[p.Name+"|"+p.Hash] {
